@@ -105,6 +105,33 @@ def r1_deserialise(ctx):
             ctx.violation("C12.R2", fi.qual, loc(fi), f"inputs of node {nm}", f"node {nm}: inputs written {data[nm]['inputs']} are re-connected as {vkey(ins)[:160]}")
         else:
             ctx.ok("C12.R2", loc(fi), f"node {nm}: outputs, payload and every input (parent, output) restored")
+    # and back again: serialising the nodes that deserialise built reproduces the data (reference forms normalised) — the writer and the
+    # reader are inverse to each other on the model graph, whatever intermediate representation they share
+    sfi = repo.func(f"{G}.nodes.Node.serialise")
+    norm = lambda src: (src, "0") if isinstance(src, str) else (src[0], src[1])
+    for nm, nd in made.items():
+        if not nd.fields:
+            continue  # constructor not evaluated: nothing to serialise from
+        ps = Interp(repo, inline={f"{G}.nodes.Output.serialise"}).explore(sfi, args={"self": nd})
+        ctx.evals(len(ps))
+        outs = [q.exit[1] for q in ps if q.exit[0] == "return" and not any(d.key.startswith("hasattr") and d.value for d in q.decisions)]
+        want_d = {"outputs": data[nm].get("outputs", []), "inputs": {k: norm(v) for k, v in data[nm]["inputs"].items()}}
+        if "payload" in data[nm]:
+            want_d["payload"] = data[nm]["payload"]
+        okk = False
+        for o in outs:
+            if isinstance(o, dict) and isinstance(o.get("inputs"), dict):
+                try:
+                    got_d = {**o, "inputs": {k: norm(v) for k, v in o["inputs"].items()}}
+                except Exception:
+                    continue
+                if got_d == want_d:
+                    okk = True
+        if not okk:
+            ctx.violation("C12.R2", sfi.qual, loc(sfi), f"round trip of node {nm}",
+                          f"node {nm} read from {want_d} serialises back to {vkey(outs)[:200]}: writer and reader are not inverse to each other")
+        else:
+            ctx.ok("C12.R2", loc(sfi), f"node {nm}: serialise(deserialise(data)) == data")
 
 
 def r2_writer(ctx):
